@@ -30,9 +30,9 @@
   * "ear clipping succeeds on every simple polygon in general position" (two-ears theorem; not in Mathlib);
   * (now proved elsewhere: WF and exact face structure in C13b.lean / C13c.lean; for the two FAN kernels, that the
     triangles of the result map carry the coordinates of `fanTriangles` and that all other coordinates are unchanged,
-    in C13d.lean.)  Still open: the same coordinate tie for ear clipping (`earclipTriangles`);
+    in C13d.lean; the same for ear clipping (`earclipTriangles`) in C13e.lean.);
   * the orientation of the LAST triangle left by ear clipping (the code does not test it);
-  * the clockwise twin of `C13_fan_accepts_convex_ccw`.
+  * (the clockwise twin of `C13_fan_accepts_convex_ccw` is `C13_fan_accepts_convex_cw`, in C13e.lean.)
 -/
 import Honeycomb.Model.Kernels.EarClip
 import Honeycomb.Lemmas.KernelWF
